@@ -47,9 +47,12 @@ def cqm(m):
     return cqmat([list(r) for r in m])
 
 
-def encl(model, obs, cert=None, tol=TOL):
+def encl(model, obs, cert=None, tol=TOL, rel=False):
+    """|model - observed| <= tol (1 + |observed|) for log-densities (O(1) or larger by nature: an absolute error there IS a
+    relative error of the density); rel=True: <= tol |observed| for densities / probabilities, so that a tiny value cannot
+    pass vacuously."""
     v = frac(obs)
-    t = tol * (1 + abs(v))
+    t = tol * abs(v) if (rel and v != 0) else tol * (1 + abs(v))
     prop = "(Rabs (%s - %s) <= %s)%%R" % (model, cr(v), cr(t))
     if cert is None:
         return prop, "c04_encl."
@@ -149,6 +152,18 @@ def close(a, b, rel=1e-9):
     if math.isnan(a) or math.isnan(b):
         return False
     return abs(a - b) <= rel * (1 + abs(b))
+
+
+def close_rel(a, b, rel=1e-9):
+    """purely relative closeness, for densities / probabilities of any magnitude"""
+    if a is None or b is None:
+        return False
+    a, b = float(a), float(b)
+    if math.isnan(a) or math.isnan(b):
+        return False
+    if math.isinf(a) or math.isinf(b) or b == 0.0:
+        return a == b
+    return abs(a - b) <= rel * abs(b)
 
 
 # ------------------------------------------------------------------------------------------------
@@ -405,6 +420,38 @@ def scalar_family_cases(ctx, cuqi, state, cases, stats):
                                                     dist, condvals, general)
 
 
+MAG_RULES = {   # how the parameters scale when every length is multiplied by c
+    "Normal": {"mean": 1, "std": 1}, "Laplace": {"location": 1, "scale": 1}, "SmoothedLaplace": {"location": 1, "scale": 1, "beta": 2},
+    "Cauchy": {"location": 1, "scale": 1}, "Uniform": {"low": 1, "high": 1}, "Gamma": {"shape": 0, "rate": -1},
+    "InverseGamma": {"shape": 0, "location": 1, "scale": 1},
+}
+
+
+def scalar_magnitude_cases(ctx, cuqi, state, cases, stats):
+    """tiny / huge scale parameters and evaluation points: all lengths multiplied by c = 2^k (exact), logpdf only"""
+    rng = ctx.rng
+    K = [-50, -17, 17, 34] + ([-60, -34, 50, 60] if ctx.thorough else [])
+    counter = 0
+    for fam, rules in MAG_RULES.items():
+        names = FAMILIES[fam][0]
+        scalar_only = FAMILIES[fam][2]
+        for k in K:
+            c = 2.0 ** k
+            for n, forms in [(1, "S" * len(names)), (3, "S" * len(names)), (3, "".join("S" if nm in scalar_only else "V" for nm in names))]:
+                counter += 1
+                if not ctx.thorough and n == 3 and (counter + k) % 2 == 0:
+                    continue
+                P0 = draw_params(rng, fam, forms, n)
+                x0 = draw_x(rng, fam, P0, n, True)
+                P = {nm: [v * c ** rules[nm] for v in vals] for nm, vals in P0.items()}
+                x = [v * c for v in x0]
+                ifl = RAW_FAMILIES.get(fam, IFACES)
+                ifaces = [ifl[(counter + j) % len(ifl)] for j in range(len(names))]
+                dist, condvals = build_dist(cuqi, fam, P, n, ifaces, "direct")
+                one_scalar_case(ctx, cuqi, state, cases, stats, fam, P, x, n, forms, "direct", ifaces, "logpdf", dist, condvals,
+                                cell_suffix="/lengths*2^%d" % k)
+
+
 def scalar_oracle(fam, P, x, n, method, obs, forms):
     """the property itself on the implementation: observed value vs the logarithm of the documented density"""
     doc = doc_logpdf(fam, P, x)
@@ -418,7 +465,7 @@ def scalar_oracle(fam, P, x, n, method, obs, forms):
             P1 = {k: bc(v, n)[i] for k, v in P.items()}
             expected *= doc_cdf1(fam, P1, x[i])
     fail, sig = None, ""
-    if obs is None or not close(obs, expected):
+    if obs is None or not (close(obs, expected) if method in ("logpdf", "logd") else close_rel(obs, expected, 1e-8)):
         pred, dsig = DEFECT_CLASS.get(fam, (None, None))
         fail = "%s(%s).%s(%s) with dim %d = %r but the documented density gives %r" % (fam, P, method, x, n, obs, expected)
         sig = dsig if pred is not None and pred(P, n, method) else "%s.%s|%s" % (fam, method.replace("_own", ""), forms)
@@ -431,12 +478,12 @@ def scalar_observe(cuqi, meta):
     return float(np.asarray(obs).ravel()[0]) if np.size(obs) == 1 else None
 
 
-def one_scalar_case(ctx, cuqi, state, cases, stats, fam, P, x, n, forms, via, ifaces, method, dist, condvals, general=False):
+def one_scalar_case(ctx, cuqi, state, cases, stats, fam, P, x, n, forms, via, ifaces, method, dist, condvals, general=False, cell_suffix=""):
     obs = evaluate(dist, method, x, condvals)
     obs = float(np.asarray(obs).ravel()[0]) if np.size(obs) == 1 else None
     meta = {"kind": "scalar", "family": fam, "params": P, "x": x, "dim": n, "forms": "".join(forms), "via": via,
             "ifaces": ifaces, "method": method, "observed": obs}
-    cell = "%s/%s/%s/%s%s" % (fam, "".join(forms) + ("1" if n == 1 else "n"), via, method, "/lnG-cert" if general else "")
+    cell = "%s/%s/%s/%s%s%s" % (fam, "".join(forms) + ("1" if n == 1 else "n"), via, method, "/lnG-cert" if general else "", cell_suffix)
     # ---- independent oracle
     doc = doc_logpdf(fam, P, x)
     fail, sig, expected = scalar_oracle(fam, P, x, n, method, obs, "".join(forms))
@@ -446,7 +493,7 @@ def one_scalar_case(ctx, cuqi, state, cases, stats, fam, P, x, n, forms, via, if
         m = model_expr(fam, P, x, n, state, method)
         if method == "pdf":
             m = "(exp %s)" % m
-        expr, tac = encl(m, obs)
+        expr, tac = encl(m, obs, rel=method not in ("logpdf", "logd"), tol=TOL if method in ("logpdf", "logd") else 10 * TOL)
         cases.append(Case(expr=expr, tac=tac, kind="ENCLOSURE", meta=meta, cell=cell, impl_fail=fail, signature=sig))
     else:
         is_neginf = obs is not None and obs == -math.inf
@@ -515,6 +562,25 @@ GKINDS = {"scalar": "KScalar", "vector": "KVector", "densediag": "KDenseDiag", "
           "spdiag": "KSpDiag", "spfull": "KSpFull", "spdiabands": "KSpDiaBands"}
 SIG_SQRTCOV = "Gaussian.sqrtcov|dense-non-normal:RRt-instead-of-RtR"
 SIG_DIABANDS = "Gaussian.sqrtprec|sparse-DIA-with-bands:logdet-over-all-stored-entries"
+SIG_LOGDET = "Gaussian|dense-full:log(det)-leaves-the-float-range"
+SIG_SYMTOL = "Gaussian.cov/prec|symmetry-check:absolute-tolerance-accepts-non-symmetric-small-matrix"
+
+
+def fr_inv(A):
+    n = len(A)
+    cols = []
+    for j in range(n):
+        xj, det = fr_solve_det(A, [Fraction(int(i == j)) for i in range(n)])
+        if xj is None:
+            return None
+        cols.append(xj)
+    return fr_T(cols)
+
+
+def fr_lsym(A):
+    """the symmetric matrix a lower-triangle LAPACK routine sees"""
+    n = len(A)
+    return [[A[i][j] if j <= i else A[j][i] for j in range(n)] for i in range(n)]
 
 
 def g_dense(meta):
@@ -614,7 +680,28 @@ def g_documented(meta):
         quad = fr_dot(d, fr_mv(P, d))
     logdet = math.log(det.numerator) - math.log(det.denominator)
     lp = -0.5 * (n * LOG2PI + logdet) - 0.5 * float(quad)
-    return {"logpdf": lp, "logd": lp, "pdf": math.exp(lp), "logupdf": -0.5 * float(quad)}
+    return {"logpdf": lp, "logd": lp, "pdf": math.exp(lp) if lp < 700 else math.inf, "logupdf": -0.5 * float(quad)}
+
+
+def g_code_dcov(meta):
+    """determinant of the covariance as the CODE forms it (exact)"""
+    Mf = fr_mat(g_dense(meta))
+    form = meta["form"]
+    S = Mf if form in ("cov", "prec") else fr_mm(Mf, fr_T(Mf))
+    det = fr_solve_det(S, [Fraction(0)] * len(S))[1]
+    return det if form in ("cov", "sqrtcov") else 1 / det
+
+
+def log2_frac(q):
+    return q.numerator.bit_length() - q.denominator.bit_length()
+
+
+def g_det_out_of_range(meta):
+    """dense branch (dim <= MIN_DIM_SPARSE): numpy.linalg.det of the matrix is far outside the binary64 range"""
+    import cuqi
+    if meta["gkind"] != "densefull" or meta["dim"] > int(cuqi.config.MIN_DIM_SPARSE):
+        return False
+    return abs(log2_frac(g_code_dcov(meta))) > 1100
 
 
 def g_is_normal(meta):
@@ -627,8 +714,21 @@ def g_oracle(meta, ob):
     gk, form = meta["gkind"], meta["form"]
     if meta.get("malformed"):
         if ob["outcome"] == "value":
-            return ("Gaussian(%s=<%s>) is not a valid input (%s) but was accepted and logpdf = %r" % (form, gk, meta["malformed"], ob.get("value")),
-                    "Gaussian.%s|malformed-accepted:%s" % (form, meta["malformed"]))
+            M = g_dense(meta)
+            asym = max(abs(M[i][j] - M[j][i]) for i in range(len(M)) for j in range(len(M)))
+            # grossly non-symmetric, yet every |a_ij - a_ji| is below numpy.allclose's ABSOLUTE tolerance 1e-8
+            sig = SIG_SYMTOL if (meta["malformed"] == "non-symmetric" and asym <= 1e-8) else "Gaussian.%s|malformed-accepted:%s" % (form, meta["malformed"])
+            return ("Gaussian(%s=<%s %s>) is not a valid input (%s, max |a_ij - a_ji| = %.3g) but was accepted and %s = %r" % (
+                    form, gk, M if meta["dim"] <= 5 else "...", meta["malformed"], asym, meta["method"], ob.get("value")), sig)
+        return None, ""
+    if meta.get("nonsym_within_rtol") and ob["outcome"] == "value":
+        # asymmetry at rounding-noise level (relative 2^-20 < rtol): accepted by design; the value must be that of the symmetrised matrix
+        M = g_dense(meta)
+        Ms = [[(M[i][j] + M[j][i]) / 2 for j in range(len(M))] for i in range(len(M))]
+        exp = g_documented(dict(meta, P=Ms))[meta["method"]]
+        if not close(ob["value"], exp, 1e-4):
+            return ("Gaussian(%s=<nearly symmetric %s>).%s = %r, symmetrised matrix gives %r" % (form, M, meta["method"], ob["value"], exp),
+                    "Gaussian.%s|nearly-symmetric" % form)
         return None, ""
     if ob["outcome"] != "value":
         if gk in ("spfull", "spdiabands"):
@@ -638,9 +738,11 @@ def g_oracle(meta, ob):
     doc = g_documented(meta)
     exp = doc[meta["method"]]
     v = ob["value"]
-    if v is None or not close(v, exp):
+    if v is None or not (close_rel(v, exp, 1e-8) if meta["method"] == "pdf" else close(v, exp)):
         if gk == "spdiabands" and form == "sqrtprec":
             sig = SIG_DIABANDS
+        elif gk == "densefull" and v is not None and math.isinf(v) and g_det_out_of_range(meta):
+            sig = SIG_LOGDET
         elif form == "sqrtcov" and gk in ("densefull", "spfull") and not g_is_normal(meta):
             sig = SIG_SQRTCOV
         else:
@@ -663,8 +765,9 @@ def g_case(ctx, cuqi, state, cases, stats, meta, cell):
     n, form, gk = meta["dim"], meta["form"], meta["gkind"]
     F, K = GFORMS[form], GKINDS[gk]
     M = g_dense(meta)
-    sym = fr_mat(M) == fr_T(fr_mat(M))
-    model_out = "(gauss_outcome %s %s %s %s)" % (cbool(state["dia_fixed"]), F, K, cbool(sym))
+    exact_sym = fr_mat(M) == fr_T(fr_mat(M))
+    symexpr = "true" if (gk != "densefull" or (exact_sym and n > 8)) else "(np_allclose_tr %s %s)" % (cnat(n), cqm(M))
+    model_out = "(gauss_outcome %s %s %s %s)" % (cbool(state["dia_fixed"]), F, K, symexpr)
     stats["gaussian"] = stats.get("gaussian", 0) + 1
     if ob["outcome"] != "value":
         obs_out = {"refused_init": "OutRefusedInit", "refused_logpdf": "OutRefusedLogpdf"}[ob["outcome"]]
@@ -694,6 +797,18 @@ def g_case(ctx, cuqi, state, cases, stats, meta, cell):
             m = "(gauss_logupdf (gd_quad %s %s %s %s))" % (F, crl(p), crl(mean), crl(xs))
         else:
             m = "(gauss_diag_logpdf %s %s %s %s %s %s)" % (F, cbool(gk == "scalar"), cnat(n), crl(p), crl(mean), crl(xs))
+    elif gk == "densefull" and form in ("cov", "prec") and not exact_sym:
+        # accepted although not symmetric: det of the matrix as given, cholesky of the LOWER triangle of inv(cov) / prec
+        Mf = fr_mat(M)
+        _, det = fr_solve_det(Mf, d)
+        if form == "cov":
+            C = fr_inv(Mf)
+            dcov, quad = det, fr_dot(d, fr_mv(fr_lsym(C), d))
+        else:
+            C = []
+            dcov, quad = 1 / det, fr_dot(d, fr_mv(fr_lsym(Mf), d))
+        cert = "%s && gauss_nonsym_cert %s %s %s %s %s %s %s" % (dec, F, cnat(n), cqm(M), cqm(C) if C else "[]", cql(d), cq(dcov), cq(quad))
+        m = "(gauss_logupdf %s)" % cr(quad) if method == "logupdf" else "(gauss_canon %s (ln %s) %s)" % (cnat(n), cr(dcov), cr(quad))
     else:   # dense full (the sparse-full kinds never reach a value)
         Mf = fr_mat(M)
         if form in ("cov", "sqrtcov"):
@@ -708,6 +823,16 @@ def g_case(ctx, cuqi, state, cases, stats, meta, cell):
             z = fr_mv(Mf, d)
             quad = fr_dot(d, z) if form == "prec" else fr_dot(z, z)
         cert = "%s && gauss_dense_cert %s %s %s %s %s %s %s %s" % (dec, F, cnat(n), cqm(M), cql(y), cql(d), cq(dcov), cq(quad), cnat(ob["rank"]))
+        l2 = abs(log2_frac(dcov))
+        if n <= state["thr"] and 1000 <= l2 <= 1100:
+            raise RuntimeError("generator: determinant in the boundary zone of the float range (2^%d)" % log2_frac(dcov))
+        if n <= state["thr"] and l2 > 1100 and not state["logdet_fixed"] and method in ("logpdf", "logd", "pdf"):
+            # log(numpy.linalg.det(.)) is -inf / +inf: logpdf = +inf for a tiny determinant of the covariance, -inf for a huge one
+            pinf = v is not None and (v == math.inf)
+            ninf = v is not None and (v == -math.inf if method != "pdf" else v == 0.0)
+            expr = "%s && check_dec (det_underflow %s) %s && check_dec (det_overflow %s) %s" % (cert, cq(dcov), cbool(pinf), cq(dcov), cbool(ninf))
+            cases.append(Case(expr=expr, kind="DECISION", meta=meta, cell=cell, impl_fail=fail, signature=sig))
+            return
         if method == "logupdf":
             m = "(gauss_logupdf %s)" % cr(quad)
         else:
@@ -718,7 +843,7 @@ def g_case(ctx, cuqi, state, cases, stats, meta, cell):
         cases.append(Case(expr="false", kind="DECISION", meta=meta, cell=cell, impl_fail=fail or "non-finite value %r" % v,
                           signature=sig or "Gaussian.%s|non-finite" % method))
         return
-    expr, tac = encl(m, v, cert="(%s)" % cert)
+    expr, tac = encl(m, v, cert="(%s)" % cert, rel=(method == "pdf"), tol=10 * TOL if method == "pdf" else TOL)
     cases.append(Case(expr=expr, tac=tac, kind="ENCLOSURE", meta=meta, cell=cell, impl_fail=fail, signature=sig))
 
 
@@ -734,6 +859,100 @@ def inv_unit_lower(U):
         xj, _ = fr_solve_det(fr_mat(U), [I[i][j] for i in range(n)])
         cols.append(xj)
     return fr_T(cols)
+
+
+def gscale(meta, j):
+    """the same distribution with every standard deviation multiplied by c = 2^j (exact in binary floating point):
+       cov * c^2, prec / c^2, sqrtcov * c, sqrtprec / c, and mean, x scaled by c"""
+    c = 2.0 ** j
+    f = {"cov": c * c, "prec": 1 / (c * c), "sqrtcov": c, "sqrtprec": 1 / c}[meta["form"]]
+    P = meta["P"]
+    meta["P"] = [[v * f for v in r] for r in P] if isinstance(P[0], list) else [v * f for v in P]
+    for k in ("mean", "x", "x2"):
+        if k in meta:
+            meta[k] = [v * c for v in meta[k]]
+    meta["mag"] = j
+    return meta
+
+
+def gaussian_magnitude_cases(ctx, cuqi, state, cases, stats):
+    """MAGNITUDE dimension: one exact rational covariance pushed through the 4 forms x {dense full, dense diagonal, vector,
+    sparse diagonal, scalar}, standard deviations scaled by 2^j; plus the scale dependence of the symmetry check."""
+    rng = ctx.rng
+    pt = lambda n: [rng.randint(-16, 16) / 8 for _ in range(n)]
+    J = [-25, -17, -9, 9, 17] + ([-30, -4, 4, 25, 30] if ctx.thorough else [])
+    for idx, j in enumerate(J):
+        for n in ([2, 3, 5] if ctx.thorough else [2 + idx % 2]):
+            tag = "mag2^%d" % j
+            # ---- full matrices: Sigma = c^2 L L^T
+            U = rand_unit_lower(rng, n)
+            if all(U[i][k] == 0 for i in range(n) for k in range(i)):
+                U[n - 1][0] = 1
+            D = [rng.choice([0.5, 1.0, 2.0]) for _ in range(n)]
+            L = [[Fraction(U[i][k]) * frac(D[k]) for k in range(n)] for i in range(n)]
+            Ui = inv_unit_lower(U)
+            Li = [[Ui[i][k] / frac(D[i]) for k in range(n)] for i in range(n)]
+            S = fr_mm(L, fr_T(L))
+            mean, x = pt(n), pt(n)
+            vals = {}
+            for form, Mx in (("cov", S), ("prec", fr_mm(fr_T(Li), Li)), ("sqrtprec", Li), ("sqrtcov", S)):
+                meta = {"kind": "gaussian", "form": form, "gkind": "densefull", "dim": n, "mean": list(mean), "via": "direct", "method": "logpdf",
+                        "P": [[float(v) for v in r] for r in Mx], "x": list(x)}
+                g_case(ctx, cuqi, state, cases, stats, gscale(meta, j), "Gaussian/%s/densefull/%s" % (form, tag))
+                vals[form] = cases[-1].meta["observed"].get("value")
+            if not (vals["cov"] is not None and close(vals["cov"], vals["prec"], 1e-8) and close(vals["cov"], vals["sqrtprec"], 1e-8)) and not cases[-1].impl_fail:
+                cases[-1].impl_fail = "one Gaussian (std scale 2^%d) given as cov / prec / sqrtprec has logpdf %r" % (j, vals)
+                cases[-1].signature = "Gaussian.logpdf|forms-disagree"
+            # ---- diagonal kinds and scalar: variances s_i^2 with dyadic s_i, so that all four inputs are exact
+            sd = [rng.choice([0.5, 1.0, 2.0, 4.0]) * rng.choice([1.0, 1.5, 1.25]) for _ in range(n)]
+            sd = [v if (1 / v) * v == 1.0 and frac(1 / v) * frac(v) == 1 else rng.choice([0.5, 2.0, 4.0]) for v in sd]
+            for gk in ("densediag", "vector", "spdiag", "scalar"):
+                mean, x = (pt(1) if gk == "scalar" else pt(n)), pt(n)
+                vals = {}
+                for form in GFORMS:
+                    s0 = sd[:1] if gk == "scalar" else sd
+                    pv = [{"cov": v * v, "prec": 1 / (v * v), "sqrtcov": v, "sqrtprec": 1 / v}[form] for v in s0]
+                    meta = {"kind": "gaussian", "form": form, "gkind": gk, "dim": n, "mean": list(mean), "via": "direct", "method": "logpdf", "x": list(x),
+                            "storage": {"scalar": "float", "vector": "array", "spdiag": ["dia", "csr"][idx % 2], "densediag": "array"}[gk]}
+                    meta["P"] = [[pv[i] if i == k else 0.0 for k in range(n)] for i in range(n)] if gk == "densediag" else pv
+                    g_case(ctx, cuqi, state, cases, stats, gscale(meta, j), "Gaussian/%s/%s/%s" % (form, gk, tag))
+                    vals[form] = cases[-1].meta["observed"].get("value")
+                if not all(v is not None and close(v, vals["cov"], 1e-8) for v in vals.values()) and not cases[-1].impl_fail:
+                    cases[-1].impl_fail = "one %s Gaussian (std scale 2^%d) given in the four forms has logpdf %r" % (gk, j, vals)
+                    cases[-1].signature = "Gaussian.logpdf|forms-disagree"
+    # ---- odd powers of two on the matrix itself (cov, prec), full matrices
+    for k in ([-51, -17, 17] if not ctx.thorough else [-51, -35, -17, 17, 35, 51]):
+        for form in ("cov", "prec"):
+            n = 3
+            U = rand_unit_lower(rng, n)
+            U[n - 1][0] = rng.choice([-1, 1])
+            L = [[Fraction(U[i][q]) for q in range(n)] for i in range(n)]
+            Li = inv_unit_lower(U)
+            Mx = fr_mm(L, fr_T(L)) if form == "cov" else fr_mm(fr_T(Li), Li)
+            c = 2.0 ** ((k // 2) if form == "cov" else -(k // 2))
+            meta = {"kind": "gaussian", "form": form, "gkind": "densefull", "dim": n, "mean": [v * c for v in pt(n)], "via": "direct", "method": "logpdf",
+                    "P": [[float(v) * 2.0 ** k for v in r] for r in Mx], "x": [v * c for v in pt(n)], "mag": k}
+            g_case(ctx, cuqi, state, cases, stats, meta, "Gaussian/%s/densefull/matrix*2^%d" % (form, k))
+    # ---- the symmetry check of cov / prec is numpy.allclose(M, M.T): rtol 1e-5 and an ABSOLUTE tolerance 1e-8
+    for form in ("cov", "prec"):
+        for k in [0, -20, -30, -40] + ([-60, 20] if ctx.thorough else []):
+            for kindof in ("gross", "within-rtol"):
+                if kindof == "within-rtol" and k not in (0, -30):
+                    continue
+                n = 2 if (k // 10) % 2 == 0 else 3
+                A = [[float(2 * n + rng.randint(0, 2)) if i == q else 0.0 for q in range(n)] for i in range(n)]
+                for i in range(n):
+                    for q in range(i):
+                        A[i][q] = A[q][i] = float(rng.randint(-2, 2)) / 2
+                A[0][n - 1] = A[n - 1][0] + (1.0 if kindof == "gross" else 2.0 ** -20)
+                c = 2.0 ** ((k // 2) if form == "cov" else -(k // 2))
+                meta = {"kind": "gaussian", "form": form, "gkind": "densefull", "dim": n, "mean": [v * c for v in pt(n)], "via": "direct", "method": "logpdf",
+                        "P": [[v * 2.0 ** k for v in r] for r in A], "x": [v * c for v in pt(n)], "mag": k}
+                if kindof == "gross":
+                    meta["malformed"] = "non-symmetric"
+                else:
+                    meta["nonsym_within_rtol"] = True
+                g_case(ctx, cuqi, state, cases, stats, meta, "Gaussian/%s/densefull-nonsymmetric-%s/matrix*2^%d" % (form, kindof, k))
 
 
 def gaussian_cases(ctx, cuqi, state, cases, stats):
@@ -867,7 +1086,11 @@ def gaussian_cases(ctx, cuqi, state, cases, stats):
                         meta["P"] = [[dg[i] / 2 if i == j else (of[i] if j == i + 1 else 0.0) for j in range(n)] for i in range(n)]
                     else:
                         meta["P"] = [[dg[i] if i == j else (of[min(i, j)] if abs(i - j) == 1 else 0.0) for j in range(n)] for i in range(n)]
-                g_case(ctx, cuqi, state, cases, stats, meta, "Gaussian/%s/%s/dim%s%d" % (form, gk, "=thr" if n == thr else ("<thr" if n < thr else ">thr"), abs(n - thr)))
+                jbig = [0, -17, 17, -25][(n + len(form) + len(gk)) % 4]       # magnitude sweep across the storage switch as well
+                if jbig:
+                    gscale(meta, jbig)
+                g_case(ctx, cuqi, state, cases, stats, meta, "Gaussian/%s/%s/dim%s%d%s" % (form, gk, "=thr" if n == thr else ("<thr" if n < thr else ">thr"), abs(n - thr),
+                                                                                        "/mag2^%d" % jbig if jbig else ""))
 
 
 # ------------------------------------------------------------------------------------------------
@@ -936,7 +1159,7 @@ def mrf_case(ctx, cuqi, state, cases, stats, meta, cell):
     exp = mrf_documented(meta, D)
     v = ob["value"]
     fail, sig = None, ""
-    if not close(v, exp, 1e-8):
+    if not (close_rel(v, exp, 1e-7) if meta["method"] == "pdf" else close(v, exp, 1e-8)):
         fail = "%s(%s, %s, bc=%s%s, %s).%s(%s) = %r but the documented density gives %r" % (
             fam, meta["loc"], meta["par"], bcn, ", order=%d" % order if fam == "GMRF" else "", "%dx%d" % (N, N) if twod else N, meta["method"], meta["x"], v, exp)
         if fam == "GMRF" and order == 0 and bcn in ("periodic", "neumann"):
@@ -980,7 +1203,7 @@ def mrf_case(ctx, cuqi, state, cases, stats, meta, cell):
     if not math.isfinite(v):
         cases.append(Case(expr="false", kind="DECISION", meta=meta, cell=cell, impl_fail=fail or "non-finite", signature=sig or "%s|non-finite" % fam))
         return
-    expr, tac = encl(m, v, cert="(%s)" % cert)
+    expr, tac = encl(m, v, cert="(%s)" % cert, rel=(meta["method"] == "pdf"), tol=10 * TOL if meta["method"] == "pdf" else TOL)
     cases.append(Case(expr=expr, tac=tac, kind="ENCLOSURE", meta=meta, cell=cell, impl_fail=fail, signature=sig))
 
 
@@ -1008,6 +1231,26 @@ def mrf_cases(ctx, cuqi, state, cases, stats):
                                 mrf_case(ctx, cuqi, state, cases, stats, m2, "%s/%s/order%d/%s/%s" % (fam, bcn, order, "2d" if twod else "1d", method))
 
 
+def mrf_magnitude_cases(ctx, cuqi, state, cases, stats):
+    """tiny / huge prec (GMRF) and scale (LMRF, CMRF), evaluation points and location scaled accordingly"""
+    rng = ctx.rng
+    K = [-34, -16, 16, 34] + ([-60, -50, 50, 60] if ctx.thorough else [])
+    for fam in ["GMRF", "LMRF", "CMRF"]:
+        for bi, bcn in enumerate(["zero", "periodic", "neumann"]):
+            for ki, k in enumerate(K):
+                if not ctx.thorough and (ki + bi) % 2 == 1:
+                    continue
+                N, twod = (4, False) if (ki + bi) % 3 else (3, True)
+                dim = N * N if twod else N
+                # GMRF: prec * 2^k, lengths * 2^(-k/2);  LMRF / CMRF: scale * 2^k, lengths * 2^k
+                c = 2.0 ** (-k // 2) if fam == "GMRF" else 2.0 ** k
+                meta = {"kind": "mrf", "family": fam, "bc": bcn, "order": 1, "twod": twod, "N": N,
+                        "loc": [c * rng.randint(-8, 8) / 4 for _ in range(dim)] if ki % 2 else [c * rng.randint(-8, 8) / 4],
+                        "par": (rng.randint(2, 24) / 8) * 2.0 ** k, "par_iface": "float", "geom": "tuple" if twod else "int", "mag": k,
+                        "method": "logpdf", "x": [c * rng.randint(-8, 8) / 4 for _ in range(dim)]}
+                mrf_case(ctx, cuqi, state, cases, stats, meta, "%s/%s/order1/%s/logpdf/par*2^%d" % (fam, bcn, "2d" if twod else "1d", k))
+
+
 # ------------------------------------------------------------------------------------------------
 # state of the repairable defects (fixes/C04_*.diff): which formula does this tree implement?
 # ------------------------------------------------------------------------------------------------
@@ -1033,6 +1276,16 @@ def witness_values(cuqi):
             w["dia"] = float(np.ravel(g.logpdf(np.array([1.0, 0.0, 0.0])))[0])            # documented: -1.5 log(2 pi) - 1/2
         except NotImplementedError:
             w["dia"] = "refused"
+        # 40-dimensional correlated covariance with standard deviations ~ 1e-6: det = 2^-1600 det(T) underflows
+        T = np.diag(3 * np.ones(40)) + np.diag(-0.5 * np.ones(39), 1) + np.diag(-0.5 * np.ones(39), -1)
+        w["logdet"] = float(np.ravel(D.Gaussian(np.zeros(40), cov=T * 2.0 ** -40).logpdf(np.zeros(40)))[0])
+        w["logdet_doc"] = -0.5 * (40 * LOG2PI + float(np.linalg.slogdet(T)[1]) - 1600 * math.log(2))
+        # grossly non-symmetric "covariance" below numpy.allclose's absolute tolerance
+        try:
+            D.Gaussian(np.zeros(2), cov=np.array([[4.0, 1.0], [2.0, 3.0]]) * 2.0 ** -30)
+            w["symtol"] = "accepted"
+        except ValueError:
+            w["symtol"] = "refused"
         g0 = D.GMRF(np.zeros(5), 2.0, "periodic", 0)
         w["gmrf0"] = float(g0.logpdf(np.zeros(5)))                                         # documented: 2.5 (log 2 - log 2 pi)
         g2 = D.GMRF(np.zeros(5), 2.0, "neumann", 2)
@@ -1048,6 +1301,8 @@ def detect_state(cuqi):
             "slap_fixed": close(w["slap"], 3 * math.log(0.25) - 3 * math.sqrt(0.75) / 2),
             "cauchy_cdf_fixed": close(w["cauchy_cdf"], F ** 3),
             "dia_fixed": w["dia"] == "refused",
+            "logdet_fixed": math.isfinite(w["logdet"]),
+            "thr": int(cuqi.config.MIN_DIM_SPARSE),
             "witness": w}
 
 
@@ -1068,6 +1323,10 @@ def known_witnesses(ctx):
         "Gaussian(0, sqrtcov=[[1,0],[1,1]]).logpdf([1,0]) = %r; documented (cov = R^T R) %r; the code forms R R^T" % (w["sqrtcov"], -LOG2PI - 0.5))
     out[SIG_DIABANDS] = (w["dia"] != "refused" and not close(w["dia"], -1.5 * LOG2PI - 0.5),
         "Gaussian(zeros(3), sqrtprec=scipy.sparse.diags([1,-1],[0,1],shape=(3,3))).logpdf([1,0,0]) = %r, documented %r" % (w["dia"], -1.5 * LOG2PI - 0.5))
+    out[SIG_LOGDET] = (not close(w["logdet"], w["logdet_doc"]),
+        "Gaussian(zeros(40), cov=2^-40 * tridiag(-.5,3,-.5)).logpdf(0) = %r, documented %r (numpy.linalg.det underflows, log gives -inf)" % (w["logdet"], w["logdet_doc"]))
+    out[SIG_SYMTOL] = (w["symtol"] == "accepted",
+        "Gaussian(zeros(2), cov=2^-30*[[4,1],[2,3]]) is %s; the same matrix at scale 1 is refused as non-symmetric" % w["symtol"])
     out[SIG_GMRF0] = (not close(w["gmrf0"], 2.5 * (math.log(2) - LOG2PI)),
         "GMRF(zeros(5),2,'periodic',order=0).logpdf(0) = %r, documented N(0, I/2): %r" % (w["gmrf0"], 2.5 * (math.log(2) - LOG2PI)))
     # order 2 neumann, n = 5: D^T D has eigenvalues with product (non-zero ones) = pdet; true rank 3
@@ -1084,12 +1343,15 @@ def known_witnesses(ctx):
 def run(ctx):
     import cuqi
     state = detect_state(cuqi)
-    ctx.note("state of repairable defects: uniform_fixed=%s slap_fixed=%s cauchy_cdf_fixed=%s dia_fixed=%s" % (
-        state["uniform_fixed"], state["slap_fixed"], state["cauchy_cdf_fixed"], state["dia_fixed"]))
+    ctx.note("state of repairable defects: uniform_fixed=%s slap_fixed=%s cauchy_cdf_fixed=%s dia_fixed=%s logdet_fixed=%s" % (
+        state["uniform_fixed"], state["slap_fixed"], state["cauchy_cdf_fixed"], state["dia_fixed"], state["logdet_fixed"]))
     cases, stats = [], {}
     scalar_family_cases(ctx, cuqi, state, cases, stats)
     gaussian_cases(ctx, cuqi, state, cases, stats)
+    gaussian_magnitude_cases(ctx, cuqi, state, cases, stats)
     mrf_cases(ctx, cuqi, state, cases, stats)
+    mrf_magnitude_cases(ctx, cuqi, state, cases, stats)
+    scalar_magnitude_cases(ctx, cuqi, state, cases, stats)
     # spread the expensive cases (76 x 76 exact determinants) over the shards so that they are evaluated in parallel
     heavy = [c for c in cases if "/densefull/dim" in c.cell]
     light = [c for c in cases if "/densefull/dim" not in c.cell]
